@@ -249,11 +249,12 @@ fn run_fault(bs: &[Backend], orig: &Tok, f: &Fault, m: &mut M, rep: &mut Report,
     rep.evaluations += 1;
     rep.count(&format!("fault.{}", f.kind));
     let (text, parts) = match &f.text {
-        Some(s) => (s.clone(), lab::token_parts(s)),
+        Some(s) => (s.clone(), lab::token_parts_strict(s)),
         None => (lab::token_string(b.ver, f.purpose, &f.payload, &f.footer), Some((f.payload.clone(), f.footer.clone()))),
     };
-    // a text substitution may alias the same bytes only via the empty-footer dot; anything that decodes
-    // to the original (payload, footer) is not a fault
+    // a text substitution may alias the same bytes only via the empty-footer dot; anything that is the canonical
+    // spelling of the original (payload, footer) is not a fault.  The decoder used for this decision is strict: a
+    // dangling character or non-zero unused bits are a different text of the same bytes and must be rejected.
     if let Some((p, ft)) = &parts {
         if f.text.is_some() && *p == orig.payload && *ft == orig.footer {
             rep.count("fault.noop");
